@@ -11,6 +11,7 @@ mod refbuiltins;
 mod refeval;
 mod p01;
 mod p02;
+mod p03;
 mod p04;
 mod p05;
 mod p06;
@@ -24,6 +25,7 @@ fn make(id: &str, tier: Tier) -> Option<Box<dyn Property>> {
     Some(match id {
         "C01" => Box::new(p01::P01::new(tier)),
         "C02" => Box::new(p02::P02::new(tier)),
+        "C03" => Box::new(p03::P03::new(tier)),
         "C04" => Box::new(p04::P04::new(tier)),
         "C05" => Box::new(p05::P05::new(tier)),
         "C06" => Box::new(p06::P06::new(tier)),
